@@ -561,6 +561,9 @@ class OsProxy:
     def getpid(self):
         return 4242
 
+    # pure arithmetic on device numbers
+    makedev, major, minor = staticmethod(_os.makedev), staticmethod(_os.major), staticmethod(_os.minor)
+
     def __getattr__(self, n):
         v = getattr(_os, n)
         if callable(v):
